@@ -188,11 +188,14 @@ fn check_segment(mode: GameMode, kind: SplineType, seg: &[PathControlPoint]) -> 
                         // d * |u - u_a| <= d * 2 sin(sweep / 2): the full 2d beyond a half circle, little on a flat arc
                         let sweep = arc.sweep.abs();
                         let geo_factor = if sweep >= std::f64::consts::PI { 2.0 } else { 2.0 * (sweep / 2.0).sin() };
-                        let f32_cond = delta * geo_factor + delta * delta / r.max(1e-9);
+                        let mut f32_cond = delta * geo_factor + delta * delta / r.max(1e-9);
                         // K13: the denominator 2*cross itself is dominated by the rounding of its three products
-                        // (relative error >= 1/4): the computed centre is noise
+                        // (relative error >= 1/4): the computed centre is noise. The first-order allowance above has no
+                        // meaning there (it grows without limit and would accept any path), so such a triple is judged
+                        // without it and a failure is the listed finding
                         if 16.0 * 2f64.powi(-24) * e_den / (2.0 * cr.abs()) >= 0.25 && k8_shape.is_none() {
                             k8_shape = Some(K13);
+                            f32_cond = 0.0;
                         }
                         let bound = if r < 1.0e4 { 0.4 + 8.0 * ulp } else { 1.0 + 8.0 * ulp } + f32_cond + sampling + 1e-3;
                         Geo { exact: arc.samples(n), bound, family: if r < 1.0e4 { "arc" } else { "arc:r>=1e4" } }
@@ -280,7 +283,12 @@ fn check_case(mode: GameMode, pts: &[PathControlPoint], open: (bool, bool), st: 
         let true_arc = *kind == SplineType::PerfectCurve && seg.len() == 3;
         let starts_exact = !true_arc;
         let nondegenerate = seg[1..].iter().all(|p| p.pos != seg[0].pos);
-        if prev_exact_end && starts_exact && nondegenerate && !prefix.is_empty() {
+        // (a segment whose own first two samples coincide at f32 resolution - control points a few ulps apart,
+        // e.g. a Catmull span of 0.01 px at |coord| = 4096 - legitimately repeats the vertex: that is the
+        // segment's sampling, not the joint, and clause (3) pins the contribution exactly)
+        let own = path_of(mode, seg);
+        let own_repeats_start = own.len() >= 2 && own[0] == own[1];
+        if prev_exact_end && starts_exact && nondegenerate && !prefix.is_empty() && !own_repeats_start {
             if rest.first() == prefix.last() {
                 return fail(format!("joint vertex {:?} appears twice (end of one segment and start of the next)", prefix.last().unwrap()));
             }
@@ -299,7 +307,7 @@ fn check_case(mode: GameMode, pts: &[PathControlPoint], open: (bool, bool), st: 
             return fail(format!("{msg} (shape of the finding {key}, which is not listed as open)"));
         }
         // (3) in context the segment contributes what it produces on its own
-        let sp = path_of(mode, seg);
+        let sp = own;
         let dedupe = |v: &[Pos]| -> Vec<Pos> {
             if !prefix.is_empty() && v.first() == prefix.last() { v[1..].to_vec() } else { v.to_vec() }
         };
